@@ -15,7 +15,7 @@
 From Coq Require Import List NArith ZArith.
 From Verif Require Import c01vm.Syntax c01vm.Code c01vm.VM c01vm.Den c01vm.Compile c01vm.Natives c01vm.Lemmas c01vm.Correct c01vm.Peep.
 Import ListNotations.
-From Verif Require c01vm2.Syntax c01vm2.Code c01vm2.VM c01vm2.Den c01vm2.Compile c01vm2.Natives c01vm2.Mach c01vm2.Gen c01vm2.Lemmas c01vm2.Correct.
+From Verif Require c01vm2.Syntax c01vm2.Code c01vm2.VM c01vm2.Den c01vm2.Compile c01vm2.Natives c01vm2.Mach c01vm2.Gen c01vm2.Lemmas c01vm2.Correct c01vm2.Peep.
 
 (* For EVERY program q of F that compiles (all variables and labels bound), EVERY input v and EVERY
    instance of the natives there is a fuel with which the VM, started by env.execute on the code finally
@@ -286,3 +286,47 @@ Example C01vm_tailrec_nonvacuous :
     = Some (true, [c01vm2.Syntax.VNum 3]) /\
   c01vm2.Compile.compile_raw_g true q = option_map c01vm2.Compile.tailrec (c01vm2.Compile.compile_raw_g false q).
 Proof. vm_compute. split; reflexivity. Qed.
+
+(* ---- optimizeCodeOps on the frame machine (also C04's peephole_sound, now for the full instruction set of the
+   development: closures, calls, opcallrec) ----
+   For ANY code c (1) in which no opjumpifnot targets the next instruction, (2) whose last instruction is opret and
+   (3) in which the targets of oppushpc / opcall pc / opcallrec are opscope instructions -- the Go pass does not put
+   those into its `targets`, the compiler only ever emits them for opscope, and an opscope is never the second half of
+   a fused pair -- the rewritten code has the same observation whenever c neither gets stuck nor runs out of fuel. *)
+Theorem C01vm_functions_peephole_sound : forall (nt : c01vm2.Code.natives) (c : list c01vm2.Code.instr),
+  (forall p j, nth_error c p = Some (c01vm2.Code.Ijumpifnot j) -> j <> S p) ->
+  nth_error c (length c - 1) = Some c01vm2.Code.Iret ->
+  (forall pc p, nth_error c pc = Some (c01vm2.Code.Ipushpc p) \/ nth_error c pc = Some (c01vm2.Code.Icallf p) \/
+                nth_error c pc = Some (c01vm2.Code.Icallrec p) ->
+                exists id nv na, nth_error c p = Some (c01vm2.Code.Iscope id nv na)) ->
+  forall v f o, c01vm2.VM.run nt c f (c01vm2.VM.init c v) = o -> snd o <> c01vm2.VM.OutOfFuel -> snd o <> c01vm2.VM.IsStuck ->
+  exists f', c01vm2.VM.run nt (c01vm2.Compile.peephole c) f' (c01vm2.VM.init (c01vm2.Compile.peephole c) v) = o.
+Proof. exact c01vm2.Peep.peephole_fold_sound. Qed.
+Print Assumptions C01vm_functions_peephole_sound.
+
+(* the FINAL code: after optimizeTailRec (tco = true) and optimizeCodeOps.  The side conditions of the peephole
+   theorem are proved for everything the compiler emits (Peep.comp_jin, Peep.comp_scr, Peep.side_okb_raw). *)
+Theorem C01vm_final_compile_correct :
+  forall (nt : c01vm2.Code.natives) (tco : bool) (q : c01vm2.Syntax.query) (code : list c01vm2.Code.instr),
+  option_map c01vm2.Compile.peephole (c01vm2.Compile.compile_raw_g tco q) = Some code ->
+  forall (fu : nat) (v : c01vm2.Syntax.jv), exists fuel : nat,
+    c01vm2.Correct.run_is (c01vm2.Den.den nt fu q [] v) (c01vm2.VM.run nt code fuel (c01vm2.VM.init code v)).
+Proof. exact c01vm2.Peep.compile_g_correct. Qed.
+Print Assumptions C01vm_final_compile_correct.
+
+(* the pipeline as compiler.go runs it: compile q = peephole (tailrec (compile_raw q)), tailrec being the transcription
+   of the Go scan.  Run.v checks on every sampled program that it coincides with compile_tco q (= the theorem's code
+   for tco = true), and the instruction-list comparison that it is the implementation's code. *)
+Corollary C01vm_final_pipeline :
+  forall (nt : c01vm2.Code.natives) (q : c01vm2.Syntax.query) (code : list c01vm2.Code.instr),
+  c01vm2.Compile.compile q = Some code -> c01vm2.Compile.compile q = c01vm2.Compile.compile_tco q ->
+  forall (fu : nat) (v : c01vm2.Syntax.jv), exists fuel : nat,
+    c01vm2.Correct.run_is (c01vm2.Den.den nt fu q [] v) (c01vm2.VM.run nt code fuel (c01vm2.VM.init code v)).
+Proof.
+  intros nt q code Hc He. rewrite He in Hc. exact (c01vm2.Peep.compile_g_correct nt true q code Hc).
+Qed.
+
+(* the compiler's output satisfies the side conditions of the peephole theorem *)
+Theorem C01vm_side_conditions : forall tco q raw, c01vm2.Compile.compile_raw_g tco q = Some raw -> c01vm2.Compile.side_okb raw = true.
+Proof. exact c01vm2.Peep.side_okb_raw. Qed.
+Print Assumptions C01vm_side_conditions.
